@@ -59,6 +59,7 @@ from isla.solver import (
     CostWeightVector,
     CostComputer,
     SemanticError,
+    UnknownResultError,
 )
 from isla.type_defs import Grammar
 
@@ -443,7 +444,15 @@ def repair(stdout, stderr, parser: ArgumentParser, args: Namespace):
         structural_predicates=structural_predicates,
         semantic_predicates=semantic_predicates,
     )
-    maybe_repaired = solver.repair(inp, fix_timeout_seconds=args.timeout)
+    try:
+        maybe_repaired = solver.repair(inp, fix_timeout_seconds=args.timeout)
+    except Exception as exc:
+        print(
+            f"isla repair: error: An exception ({type(exc).__name__}) occurred "
+            + f"during repairing, message: `{exc}`",
+            file=stderr,
+        )
+        sys.exit(1)
 
     if not is_successful(maybe_repaired):
         print(
@@ -497,12 +506,20 @@ def mutate(stdout, stderr, parser: ArgumentParser, args: Namespace):
         semantic_predicates=semantic_predicates,
     )
 
-    mutated = solver.mutate(
-        inp,
-        fix_timeout_seconds=args.timeout,
-        min_mutations=args.min_mutations,
-        max_mutations=args.max_mutations,
-    )
+    try:
+        mutated = solver.mutate(
+            inp,
+            fix_timeout_seconds=args.timeout,
+            min_mutations=args.min_mutations,
+            max_mutations=args.max_mutations,
+        )
+    except Exception as exc:
+        print(
+            f"isla mutate: error: An exception ({type(exc).__name__}) occurred "
+            + f"during mutation, message: `{exc}`",
+            file=stderr,
+        )
+        sys.exit(1)
 
     if args.output_file:
         with open(args.output_file, "w") as file:
@@ -557,6 +574,12 @@ def do_check(
             raise SemanticError()
     except SemanticError:
         return 1, "input does not satisfy the ISLa constraint", Nothing
+    except UnknownResultError:
+        return (
+            1,
+            "could not determine whether the input satisfies the ISLa constraint",
+            Nothing,
+        )
 
     return 0, "input satisfies the ISLa constraint", Some(tree)
 
